@@ -4,6 +4,7 @@ use crate::policy::sft::GCWorkerMutRef;
 use crate::policy::sft::SFT;
 use crate::policy::space::CommonSpace;
 use crate::scheduler::GCWorkScheduler;
+use crate::util::alloc::allocator::AllocationOptions;
 use crate::util::heap::chunk_map::Chunk;
 use crate::util::heap::chunk_map::ChunkMap;
 use crate::util::heap::gc_trigger::GCTrigger;
@@ -374,11 +375,21 @@ impl<VM: VMBinding> MallocSpace<VM> {
         }
     }
 
-    pub fn alloc(&self, tls: VMThread, size: usize, align: usize, offset: usize) -> Address {
+    pub fn alloc(
+        &self,
+        tls: VMThread,
+        size: usize,
+        align: usize,
+        offset: usize,
+        alloc_options: AllocationOptions,
+    ) -> Address {
         // TODO: Should refactor this and Space.acquire()
-        if self.get_gc_trigger().poll(false, Some(self)) {
+        if self.get_gc_trigger().poll(false, Some(self)) && !alloc_options.allow_overcommit {
             assert!(VM::VMActivePlan::is_mutator(tls), "Polling in GC worker");
-            VM::VMCollection::block_for_gc(VMMutatorThread(tls));
+            // If we are not at a safepoint, we cannot block for GC.  Return null immediately.
+            if alloc_options.at_safepoint {
+                VM::VMCollection::block_for_gc(VMMutatorThread(tls));
+            }
             return unsafe { Address::zero() };
         }
 
